@@ -1226,5 +1226,50 @@ def c01_remove_relink(ctx):
     return _r(ctx)
 
 
-RULES = [c01_remove_relink, c13_inputs_converted, vertex_curvature, mirror_index, c01_media_chain, no_stale, records, chief_ray, parax_eq, invariant_step, parax_linear, crossing, signed_return,
+def parax_centred(ctx):
+    """paraxial quantities are first-order properties about the optical axis:
+    they depend on curvatures, indices and axial spacings only.  The frame
+    changes of a surface (localize / globalize) must therefore change a
+    paraxial ray's axial position only: ParaxialRays.rotate_* are no-ops, and
+    ParaxialRays.translate must not move the height by the decentre (a height
+    shift dy adds the prism term dy * power to the slope, which f2 = -y/u
+    reads as a change of power - and which does not scale like a length)."""
+    P = ctx.P
+    res = Result('PARAX-CENTRED', 'frame changes move paraxial rays along the '
+                 'axis only (decentres and tilts do not enter first-order '
+                 'properties)')
+    c = P.classes['ParaxialRays']
+    for ax in 'xyz':
+        m = c.methods.get('rotate_' + ax)
+        if m is None or any(isinstance(st, (ast.Assign, ast.AugAssign))
+                            for st in ast.walk(m.node)):
+            res.fail(ctx.finding(
+                'PARAX-CENTRED', m or P.func('ParaxialRays.__init__'), None,
+                f'ParaxialRays.rotate_{ax} is not a no-op',
+                construct=f'paraxial rotate_{ax}'))
+        else:
+            res.ok(f'ParaxialRays.rotate_{ax} is a no-op')
+    t = P.lookup('ParaxialRays', 'translate')
+    if t is None:
+        raise AnalysisError('ParaxialRays.translate not found')
+    res.saw(t)
+    moved = sorted({unparse(st.target if isinstance(st, ast.AugAssign)
+                            else st.targets[0])
+                    for st in ast.walk(t.node)
+                    if isinstance(st, (ast.Assign, ast.AugAssign))})
+    if t.cls == 'ParaxialRays' and moved == ['self.z']:
+        res.ok('ParaxialRays.translate shifts z only')
+    else:
+        res.fail(ctx.finding(
+            'PARAX-CENTRED', t, t.node,
+            f'{t.qual} moves {moved} of a paraxial ray: the decentre of a '
+            f'surface is subtracted from the ray height, so a 0.1 mm decentre '
+            f'of one singlet surface changes f2 from 50.847 to 53.571 (46.15 '
+            f'for -0.2 mm), and with dy = 0.5 the focal length no longer '
+            f'scales with the lens (36.07 / 683 / 89 for s = 1 / 3 / 100)',
+            construct='paraxial rays follow surface decentres'))
+    return res
+
+
+RULES = [parax_centred, c01_remove_relink, c13_inputs_converted, vertex_curvature, mirror_index, c01_media_chain, no_stale, records, chief_ray, parax_eq, invariant_step, parax_linear, crossing, signed_return,
          fno_epd, mag_inv, inverted4, object_position]
